@@ -29,7 +29,7 @@ class Session:
         env = dict(os.environ, GLEAM_PATH='/nonexistent/gleam')
         self.p = subprocess.Popen([binary, '--stdio'], stdin=subprocess.PIPE, stdout=subprocess.PIPE, stderr=subprocess.DEVNULL, env=env, cwd=self.root)
         self.q = queue.Queue(); self.timeout = timeout; self.next_id = 1
-        self.unexpected = []
+        self.unexpected = []; self.notifications = []
         t = threading.Thread(target=self._reader, daemon=True); t.start()
         r = self.request('initialize', {'processId': None, 'rootUri': 'file://' + self.root, 'capabilities': {}})
         if 'result' not in (r or {}):
@@ -93,6 +93,8 @@ class Session:
             if 'method' in m:
                 if 'id' in m:
                     self._send({'jsonrpc': '2.0', 'id': m['id'], 'result': None})
+                else:
+                    self.notifications.append(m)
                 continue
             if m.get('id') == rid:
                 return m
@@ -179,7 +181,7 @@ def workspace_scenario(binary, files, open_rel, probes, timeout=30.0):
         s.root = root
         env = dict(os.environ, GLEAM_PATH='/nonexistent/gleam')
         s.p = subprocess.Popen([binary, '--stdio'], stdin=subprocess.PIPE, stdout=subprocess.PIPE, stderr=subprocess.DEVNULL, env=env, cwd=root)
-        s.q = queue.Queue(); s.timeout = timeout; s.next_id = 1; s.unexpected = []
+        s.q = queue.Queue(); s.timeout = timeout; s.next_id = 1; s.unexpected = []; s.notifications = []
         threading.Thread(target=s._reader, daemon=True).start()
         r = s.request('initialize', {'processId': None, 'rootUri': 'file://' + root, 'capabilities': {}})
         if 'result' not in (r or {}):
@@ -209,3 +211,45 @@ def workspace_scenario(binary, files, open_rel, probes, timeout=30.0):
         return out, alive
     finally:
         shutil.rmtree(root, ignore_errors=True)
+
+
+def drain(s, quiet=2.0, limit=20.0):
+    """collect notifications until the server has been quiet for `quiet` seconds"""
+    end = time.time() + limit; last = time.time()
+    while time.time() < end and time.time() - last < quiet:
+        try:
+            m = s.q.get(timeout=0.2)
+        except queue.Empty:
+            continue
+        if m is None:
+            break
+        last = time.time()
+        if 'method' in m:
+            if 'id' in m:
+                s._send({'jsonrpc': '2.0', 'id': m['id'], 'result': None})
+            else:
+                s.notifications.append(m)
+
+
+def two_docs_scenario(binary, nfuns=1500):
+    """document A (large, with one syntax error) and document B open; edit A, 20 ms later edit B; once quiet, the LAST diagnostics
+    published for A must be those of A's final text (at least the syntax error).  returns dict(last_a=count or None, alive)"""
+    s = Session(binary, timeout=30.0)
+    try:
+        ua, ub = s.uri('a.gleam'), s.uri('b.gleam')
+        big = ''.join('pub fn f%d() {\n  %d\n}\n' % (i, i) for i in range(nfuns)) + 'bla = bla\n'
+        s.notify('textDocument/didOpen', {'textDocument': {'uri': ua, 'languageId': 'gleam', 'version': 1, 'text': big}})
+        drain(s, quiet=2.0)
+        s.notify('textDocument/didOpen', {'textDocument': {'uri': ub, 'languageId': 'gleam', 'version': 1, 'text': 'pub fn b() {\n  1\n}\n'}})
+        drain(s, quiet=2.0)
+        def last(uri):
+            ds = [n['params']['diagnostics'] for n in s.notifications if n.get('method') == 'textDocument/publishDiagnostics' and n['params'].get('uri') == uri]
+            return len(ds[-1]) if ds else None
+        before = last(ua)
+        s.notify('textDocument/didChange', {'textDocument': {'uri': ua, 'version': 2}, 'contentChanges': [{'range': {'start': {'line': 1, 'character': 2}, 'end': {'line': 1, 'character': 3}}, 'text': '5'}]})
+        time.sleep(0.02)
+        s.notify('textDocument/didChange', {'textDocument': {'uri': ub, 'version': 2}, 'contentChanges': [{'range': {'start': {'line': 1, 'character': 2}, 'end': {'line': 1, 'character': 3}}, 'text': '7'}]})
+        drain(s, quiet=3.0)
+        return {'before': before, 'last_a': last(ua), 'alive': s.alive()}
+    finally:
+        s.close()
